@@ -31,6 +31,14 @@ ID5 = ident("ident5", 0xF104, [dict(kind="value", name="f", dop={"dt": "A_FLOAT3
 ID6 = ident("ident6", 0xF105, [dict(kind="value", name="info", dop=dict(
     complex="structure", params=[V("hw"), dict(kind="value", name="boards", dop=dict(
         complex="eopfield", structure=dict(params=[V("rev"), V("x")])))]))])
+ID7 = ident("ident7", 0xF106, [dict(kind="value", name="txt", dop={"dt": "A_ASCIISTRING", "bl": 16})])
+ID8 = ident("ident8", 0xF107, [dict(kind="value", name="dtc", dop=dict(
+    complex="dtc", dt="A_UINT32", bl=24, dtcs=[{"name": "P0001", "code": 1},
+                                               {"name": "P0ABC", "code": 0xABC}]))])
+ID9 = ident("ident9", 0xF108, [dict(kind="value", name="m", dop=dict(
+    complex="mux", bytepos=1, key_dop={"dt": "A_UINT32", "bl": 8}, cases=[
+        dict(name="c1", lo=1, hi=1, structure=dict(params=[V("code")])),
+        dict(name="c2", lo=2, hi=9, structure=dict(params=[V("other")]))]))])
 NEGR = rq(C("sid", 0x7F), MR("rsid"), V("nrc"))
 
 
@@ -38,8 +46,10 @@ def mp(expected, svc, snref=None, path=None):
     return {"expected": expected, "service": svc, "snref": snref, "path": path}
 
 
-def variant(name, patterns, services=(ID1, ID2, ID3, ID4, ID5, ID6), gnr=()):
-    return {"name": name, "patterns": patterns, "services": list(services), "gnr": list(gnr)}
+def variant(name, patterns, services=(ID1, ID2, ID3, ID4, ID5, ID6, ID7, ID8, ID9), gnr=(),
+            base=False):
+    return {"name": name, "patterns": patterns, "services": list(services), "gnr": list(gnr),
+            "base": base}
 
 
 CANDIDATES = {
@@ -61,6 +71,18 @@ CANDIDATES = {
                     variant("v3", [[mp("-0.25", "ident5", "f")]])],
     "three-level-path": [variant("v1", [[mp("3", "ident6", None, "info.boards.rev")]]),
                          variant("v2", [[mp("9", "ident6", None, "info.hw")]])],
+    "string-value": [variant("v1", [[mp("OK", "ident7", "txt")]]), variant("v2", [[mp("ok", "ident7", "txt")]])],
+    "dtc-value": [variant("v1", [[mp("0xabc", "ident8", "dtc")]]), variant("v2", [[mp("0X1", "ident8", "dtc")]])],
+    "mux-tuple": [variant("v1", [[mp("7", "ident9", None, "m.code")]]),
+                  variant("v2", [[mp("7", "ident9", None, "m.other")]])],
+    "base-variants": [variant("b1", [[mp("5", "ident1", "v")]], base=True),
+                      variant("b0", [], base=True),
+                      variant("b2", [[mp("6", "ident1", "v"), mp("1", "ident2", "w")]], base=True)],
+    "param-in-later-response": [
+        variant("v1", [[mp("17", "ident1n", "nrc")]],
+                services=(dict(ID1, name="ident1n", neg=[NEGR]), ID2), gnr=(NEGR,)),
+        variant("v2", [[mp("5", "ident1n", "v")]],
+                services=(dict(ID1, name="ident1n", neg=[NEGR]), ID2))],
     "shared-and-distinct": [variant("v1", [[mp("1", "ident1", "v"), mp("2", "ident2", "w")]]),
                             variant("v2", [[mp("1", "ident1", "v"), mp("3", "ident2", "w")]]),
                             variant("v3", [[mp("4", "ident2", "w")]])],
@@ -72,16 +94,28 @@ def build_candidates(cfg):
     import odxtools.isotp_state_machine  # noqa
     import odxtools.variantmatcher  # noqa  (must be imported before the shims are installed)
     from odxtools.ecuvariantpattern import EcuVariantPattern
+    from odxtools.basevariantpattern import BaseVariantPattern
+    from odxtools.matchingbasevariantparameter import MatchingBaseVariantParameter
     from odxtools.matchingparameter import MatchingParameter
     layers = []
     for v in CANDIDATES[cfg["cand"]]:
-        layer = build.build_layer({"services": v["services"], "gnr": v["gnr"]})
+        layer = build.build_layer({"services": v["services"], "gnr": v["gnr"]},
+                                  base_variant=v.get("base", False))
         layer.diag_layer_raw.short_name = v["name"]
-        layer.diag_layer_raw.ecu_variant_patterns = [
-            EcuVariantPattern(matching_parameters=[
-                MatchingParameter(expected_value=m["expected"], diag_comm_snref=m["service"],
-                                  out_param_if_snref=m["snref"], out_param_if_snpathref=m["path"])
-                for m in pat]) for pat in v["patterns"]]
+        if v.get("base"):
+            pats = v["patterns"]
+            layer.diag_layer_raw.base_variant_pattern = None if not pats else BaseVariantPattern(
+                matching_base_variant_parameters=[
+                    MatchingBaseVariantParameter(
+                        expected_value=m["expected"], diag_comm_snref=m["service"],
+                        out_param_if_snref=m["snref"], out_param_if_snpathref=m["path"],
+                        use_physical_addressing_raw=None) for m in pats[0]])
+        else:
+            layer.diag_layer_raw.ecu_variant_patterns = [
+                EcuVariantPattern(matching_parameters=[
+                    MatchingParameter(expected_value=m["expected"], diag_comm_snref=m["service"],
+                                      out_param_if_snref=m["snref"], out_param_if_snpathref=m["path"])
+                    for m in pat]) for pat in v["patterns"]]
         layers.append(layer)
     return {"layers": layers, "spec": CANDIDATES[cfg["cand"]]}
 
@@ -139,6 +173,34 @@ def _ref_decode(params, resp, pos):
                 if sub is None:
                     return None
                 out[p["name"]], pos = sub
+            elif k == "dtc":
+                n = d["bl"] // 8
+                if len(resp) < pos + n:
+                    return None
+                raw = resp[pos:pos + n]
+                val = 0
+                for i in range(n):
+                    val = (val << 8) | raw[i]
+                if not s_or(*[val == x["code"] for x in d["dtcs"]]):
+                    return None  # unknown trouble code -> DecodeError
+                out[p["name"]] = ("dtc", raw)
+                pos += n
+            elif k == "mux":
+                kpos = pos + d.get("key_bytepos", 0)
+                if len(resp) < kpos + 1:
+                    return None
+                key = resp[kpos]
+                case = None
+                for c in d["cases"]:
+                    if s_and(key >= c["lo"], key <= c["hi"]):
+                        case = c
+                        break
+                if case is None:
+                    return None  # no applicable case -> DecodeError
+                sub = _ref_decode(case["structure"]["params"], resp, pos + d["bytepos"])
+                if sub is None:
+                    return None
+                out[p["name"]], pos = sub[0], sub[1]
             elif k == "eopfield":
                 items = []
                 while pos < len(resp):
@@ -152,7 +214,8 @@ def _ref_decode(params, resp, pos):
                 n = d["bl"] // 8
                 if len(resp) < pos + n:
                     return None
-                kind = {"A_BYTEFIELD": "bytes", "A_FLOAT32": "f32"}.get(d["dt"], "int")
+                kind = {"A_BYTEFIELD": "bytes", "A_FLOAT32": "f32", "A_ASCIISTRING": "latin1"}.get(
+                    d["dt"], "int")
                 out[p["name"]] = (kind, resp[pos:pos + n])
                 pos += n
     return out, pos
@@ -174,6 +237,21 @@ def _ref_match(value, path, expected):
         if not re.fullmatch(r"[0-9A-Fa-f]*", expected) or len(expected) != 2 * len(raw):
             return False
         return raw == bytes.fromhex(expected)
+    if kind == "latin1":
+        try:
+            want = expected.encode("iso-8859-1")
+        except UnicodeEncodeError:
+            return False
+        return len(want) == len(raw) and raw == want
+    if kind == "dtc":
+        # hex(trouble code).upper() == expected.upper()
+        e = expected.upper()
+        if not re.fullmatch(r"0X(0|[1-9A-F][0-9A-F]*)", e):
+            return False
+        val = 0
+        for i in range(len(raw)):
+            val = (val << 8) | raw[i]
+        return val == int(e, 16)
     if kind == "f32":
         import z3
         bits = z3.Concat(*[core.bv8(core.low8(raw[i])) for i in range(4)])
